@@ -317,7 +317,25 @@ func (f *FuncVC) loopHead(fr *frame, li *loopInfo, entry *State) *State {
 		hkeys = append(hkeys, k)
 	}
 	sort.Strings(hkeys)
+	li.preserved = map[string]string{}
+	keep := map[string]*Clause{}
+	if spec != nil {
+		for _, c := range spec.Preserves {
+			for _, k := range strings.FieldsFunc(c.Text, func(r rune) bool { return r == ',' || r == ' ' }) {
+				keep[k] = c
+			}
+		}
+	}
 	for _, k := range hkeys {
+		if c := keep[k]; c != nil {
+			// `loop K preserves k`: not havoced; every latch must show the heap component unchanged
+			if srt := f.hsort[k]; srt != "" {
+				li.preserved[k] = f.heapGet(st, k, srt)
+			} else {
+				f.staleClause(c, fmt.Errorf("unknown heap component %s", k))
+			}
+			continue
+		}
 		f.havocHeapKey(st, k)
 	}
 	if spec != nil {
@@ -381,6 +399,19 @@ func (f *FuncVC) loopLatch(fr *frame, li *loopInfo, latch *ssa.BasicBlock, st *S
 			continue
 		}
 		o := f.oblig(label+".preserve", es, t, li.pos, "invariant preserved: "+inv.Text)
+		o.Pos = f.G.P.posStr(li.pos)
+	}
+	var pk []string
+	for k := range li.preserved {
+		pk = append(pk, k)
+	}
+	sort.Strings(pk)
+	for _, k := range pk {
+		cur := f.heapGet(es, k, f.hsort[k])
+		if cur == li.preserved[k] {
+			continue
+		}
+		o := f.oblig(label+".preserves", es, "(= "+cur+" "+li.preserved[k]+")", li.pos, "loop body leaves heap component "+k+" unchanged (every store to it is unreachable)")
 		o.Pos = f.G.P.posStr(li.pos)
 	}
 	if spec.Decreases != nil && li.variantHead != "" {
